@@ -53,7 +53,7 @@ REQUIRED = {
     "C15": {"group_participation_judged_by_reference": 500, "replacement_valid": 200, "replacement_invalid": 200, "more_than_9_groups": 100, "input_several_matches": 100, "input_no_match": 100},
     "C16": {"xsd_oracle_nullable": 200, "xsd_oracle_not_nullable": 200, "oracle_nullable": 500, "oracle_not_nullable": 500, "literal_patterns": 50},
     "C17": {"flag_gate": 50, "gate_or_invalid": 500, "xsd_accepted_valid": 500, "dialects_compared": 500, "literal_anchor_checked": 100},
-    "C18": {"iterators_retired_out_of_order": 100, "cross_object_probes": 50, "block_table_init_races": 1, "iterators_kept_alive_across_calls": 100, "overlapping_call_pairs": 1, "fresh_results_cross_checked_with_reference": 100},
+    "C18": {"iterators_retired_out_of_order": 100, "cross_object_probes": 50, "block_table_init_races": 1, "first_use_order_probes": 1, "iterators_kept_alive_across_calls": 100, "overlapping_call_pairs": 1, "fresh_results_cross_checked_with_reference": 100},
     "C19": {"literal_twin_matches": 500, "literal_twin_does_not_match": 200, "with_backref": 1000, "groups_judged": 500},
     "C20": {"spans_compared": 500},
     "C11": {"literal_case_blind_matches": 500, "literal_oracle_false": 200, "case_swap_twins": 1000, "monotonic_checked": 200, "oracle_true": 500, "oracle_false": 500},
